@@ -46,6 +46,36 @@ pub struct Landed<'a> {
     pub fail_cpi: Option<(usize, usize)>,
 }
 
+pub struct IxView<'a> {
+    pub i: usize,
+    pub ix: &'a Ix,
+    pub out: &'a rt::IxOutcome,
+    pub pre: &'a Ledger,
+    pub post: &'a Ledger,
+}
+
+impl<'a> Landed<'a> {
+    /// per-instruction views of a successful transaction (pre/post ledger of each instruction)
+    pub fn ix_views(&self) -> Vec<IxView<'_>> {
+        let mut v = Vec::new();
+        if !self.out.ok {
+            return v;
+        }
+        for (i, ix) in self.tx.ixs.iter().enumerate() {
+            let pre = if i == 0 { self.pre } else { &self.out.post_ix[i - 1] };
+            let post = &self.out.post_ix[i];
+            v.push(IxView {
+                i,
+                ix,
+                out: &self.out.ix_outcomes[i],
+                pre,
+                post,
+            });
+        }
+        v
+    }
+}
+
 #[derive(Default, Clone)]
 pub struct Coverage {
     pub evaluations: u64,
